@@ -26,6 +26,10 @@ type VerifVoteSpec struct {
 	NID       uint32 // carried in the part set id's app data (HasPSID only)
 	NTSCount  uint16
 	Timestamp int64
+	// unsigned attachments of a precommit (equal lengths)
+	NTSIDs    []int64
+	NTSHashes [][]byte
+	NTSProofs [][]byte
 }
 
 func VerifNewVote(w module.Wallet, s VerifVoteSpec) (*VoteMessage, error) {
@@ -39,6 +43,13 @@ func VerifNewVote(w module.Wallet, s VerifVoteSpec) (*VoteMessage, error) {
 		vm.BlockPartSetIDAndNTSVoteCount = psid.WithAppData(psidAppData(s.NID, s.NTSCount))
 	}
 	vm.Timestamp = s.Timestamp
+	for i := range s.NTSIDs {
+		vm.NTSVoteBases = append(vm.NTSVoteBases, ntsVoteBase{
+			NetworkTypeID:          s.NTSIDs[i],
+			NetworkTypeSectionHash: s.NTSHashes[i],
+		})
+		vm.NTSDProofParts = append(vm.NTSDProofParts, s.NTSProofs[i])
+	}
 	if err := vm.Sign(w); err != nil {
 		return nil, err
 	}
@@ -93,6 +104,11 @@ type VerifView struct {
 	NIDErr bool
 	Hash   []byte
 	Cost   int
+	// PreImage: the bytes handed to the hash whose digest is signed (signedBase._byteser)
+	PreImage []byte
+	// Unsigned: an encoding of everything in the message that PreImage does not cover
+	// (NTSVoteBases, NTSDProofParts); empty when there is nothing
+	Unsigned []byte
 }
 
 func VerifViewOf(d module.DoubleSignData) (VerifView, bool) {
@@ -105,6 +121,7 @@ func VerifViewOf(d module.DoubleSignData) (VerifView, bool) {
 		return VerifView{
 			Kind: module.DSTVote, Signer: v.Signer(), Height: v.msg.Height, Round: v.msg.Round,
 			VType: byte(v.msg.Type), NID: nid, NIDErr: err != nil, Hash: v.msg.hash(), Cost: v.msg.Cost(),
+			PreImage: v.msg._byteser.bytes(), Unsigned: verifUnsigned(v.msg),
 		}, true
 	case *dsProposal:
 		if v == nil {
@@ -113,9 +130,20 @@ func VerifViewOf(d module.DoubleSignData) (VerifView, bool) {
 		return VerifView{
 			Kind: module.DSTProposal, Signer: v.Signer(), Height: v.msg.Height, Round: v.msg.Round,
 			VType: 0, NID: v.msg.NID, Hash: v.msg.hash(), Cost: v.msg.Cost(),
+			PreImage: v.msg._byteser.bytes(),
 		}, true
 	}
 	return VerifView{}, false
+}
+
+func verifUnsigned(m *VoteMessage) []byte {
+	if len(m.NTSVoteBases) == 0 && len(m.NTSDProofParts) == 0 {
+		return nil
+	}
+	return msgCodec.MustMarshalToBytes(&struct {
+		Bases []ntsVoteBase
+		Parts [][]byte
+	}{m.NTSVoteBases, m.NTSDProofParts})
 }
 
 // VerifDSMLog wraps the message log with a caller-supplied random source.
